@@ -99,6 +99,11 @@ pub struct EdgeIndex<Ix = DefaultIx>(pub Ix);
 pub type DefaultIx = u32;
 //@ end
 
+// D9: derived PartialEq is structural (trusted derive output)
+impl PartialEqSpecImpl for GraphError {
+    open spec fn obeys_eq_spec() -> bool { true }
+    open spec fn eq_spec(&self, other: &Self) -> bool { *self == *other }
+}
 // D9: the derived PartialEq on the index newtypes is structural (trusted derive output)
 impl<Ix: IndexType> PartialEqSpecImpl for NodeIndex<Ix> {
     open spec fn obeys_eq_spec() -> bool { true }
